@@ -69,14 +69,32 @@ let show_frag (f : frag) : string =
     (match f.f_parent with None -> "-1" | Some p -> string_of_int (int_of_nat p))
     (String.concat "/" (List.map string_of_str f.f_dir))
 
-let show_entry (frags : frag list) (resolved : (n list * n list option) list) (e : entry) : string =
+let show_lookup (ents : entry list) (c : n list) : string =
+  match lookup_repr ents c with Some x -> show_str x | None -> "~"
+
+(* the field codes <alias>/<subfield> for every top-level alias and every subfield name of the
+   dirfile (with and without a representation suffix), resolved by lookup_repr *)
+let queries (ents : entry list) : string list =
+  let names = List.map (fun e -> (string_of_str e.e_name, e)) ents in
+  let plain nm = String.length nm > 0 && nm.[0] <> '.' && not (String.contains nm '/') &&
+    not (String.length nm > 2 && nm.[String.length nm - 2] = '.' && String.contains "rimaz" nm.[String.length nm - 1]) in
+  let aliases = List.filter (fun (nm, e) -> (match e.e_kind with EAlias _ -> true | _ -> false) && plain nm) names in
+  let subs = List.sort_uniq compare (List.filter_map (fun (nm, _) ->
+    match String.index_opt nm '/' with
+    | Some i -> Some (String.sub nm (i + 1) (String.length nm - i - 1))
+    | None -> None) names) in
+  let qs = List.concat_map (fun (a, _) -> List.concat_map (fun sb -> [a ^ "/" ^ sb; a ^ "/" ^ sb ^ ".r"]) subs) aliases in
+  let qs = List.filteri (fun i _ -> i < 160) (List.sort compare qs) in
+  List.map (fun q -> Printf.sprintf "Q =%s -> %s" q (show_lookup ents (str_of_string q))) qs
+
+let show_entry (ents : entry list) (frags : frag list) (resolved : (n list * n list option) list) (e : entry) : string =
   let d = try (List.find (fun f -> int_of_nat f.f_index = int_of_nat e.e_frag) frags).f_dir with Not_found -> [] in
   let inDir (fb : n list) = "=" ^ String.concat "/" (List.map string_of_str d @ [string_of_str fb]) in
   let k, x, r = match e.e_kind with
     | EIndex -> "I", "=", "-"
     | ERaw (fb, leg) -> "R", (inDir fb ^ (if leg then " ty=1" else " ty=2")), "-"
-    | EBit i -> "B", show_str i, "-"
-    | ELinterp (i, tb) -> "L", show_str i ^ " tab=" ^ inDir tb, "-"
+    | EBit i -> "B", show_str i ^ " rin=" ^ show_lookup ents i, "-"
+    | ELinterp (i, tb) -> "L", show_str i ^ " tab=" ^ inDir tb ^ " rin=" ^ show_lookup ents i, "-"
     | EAlias t -> "A", show_str t,
         (match List.assoc_opt e.e_name resolved with Some (Some x) -> show_str x | _ -> "~") in
   Printf.sprintf "E %s frag=%d kind=%s hid=%d x=%s res=%s" (show_str e.e_name) (int_of_nat e.e_frag) k
@@ -90,7 +108,8 @@ let show (tag : string) (r : fin) : unit =
    | FOk o ->
        print_endline (tag ^ " OK");
        List.iter (fun f -> print_endline (show_frag f)) o.o_frags;
-       List.iter (fun e -> print_endline (show_entry o.o_frags o.o_resolved e)) o.o_entries;
+       List.iter (fun e -> print_endline (show_entry o.o_entries o.o_frags o.o_resolved e)) o.o_entries;
+       List.iter print_endline (queries o.o_entries);
        print_endline ("REF " ^ (match o.o_reference with None -> "-" | Some x -> show_str x)));
   print_endline "END"
 
